@@ -386,3 +386,64 @@ pub fn lengths(seed: u64, thorough: bool) -> Vec<BuildSpec> {
     }
     out
 }
+
+/// C02 / C07: two data blocks of one symbol that are equal except for a small compensating difference (adjacent codewords
+/// changed by (+d, -m*d), swapped, or with the same bit flipped).  This is the content class that defeats shortcuts keyed
+/// by a cheap digest of a block (sum, xor, polynomial hash with a small multiplier): random payloads never produce it.
+pub fn nearblocks(seed: u64, thorough: bool) -> Vec<BuildSpec> {
+    let mut out = Vec::new();
+    let mut r = rng(seed, 10);
+    let cells: &[(usize, usize)] = if thorough { &[(6, 2), (5, 2), (8, 1), (10, 0), (15, 2), (22, 3), (9, 3), (12, 1), (27, 0), (40, 0)] } else { &[(6, 2), (5, 2), (8, 1), (10, 0), (15, 2), (22, 3)] };
+    for &(v, e) in cells {
+        let nb = NUM_BLOCKS[e][v - 1];
+        let ec = EC_PER_BLOCK[e][v - 1];
+        let tot = total_cw(v);
+        let nshort = nb - tot % nb;
+        if nshort < 2 { continue; }
+        let blen = tot / nb - ec;                       // data codewords of a short block
+        let d = data_cw(v, e);
+        let h = if v <= 9 { 3usize } else { 5 };         // header nibbles in byte mode: 4-bit mode indicator + 8- or 16-bit count
+        let n = d - (h + 1) / 2;                         // byte payload that leaves exactly the 4 terminator bits
+        for m in [1i32, 16, 31, 33, 37, 101, 131, -1, 0, 1000, 2000] {
+            for rep in 0..(if thorough { 3 } else { 1 }) {
+                let base: Vec<u8> = (0..n).map(|_| r.gen()).collect();
+                // nibble stream: header nibbles (placeholders), then two nibbles per byte
+                let mut nib: Vec<u8> = if h == 3 { vec![4, ((n >> 4) & 15) as u8, (n & 15) as u8] } else { vec![4, ((n >> 12) & 15) as u8, ((n >> 8) & 15) as u8, ((n >> 4) & 15) as u8, (n & 15) as u8] };
+                for b in &base { nib.push(b >> 4); nib.push(b & 15); }
+                nib.push(0);
+                let cw = |nib: &Vec<u8>, c: usize| -> i32 { ((nib[2 * c] << 4) | nib[2 * c + 1]) as i32 };
+                let k = 1 + rep % (nshort - 1);           // the block that mirrors block 0
+                let first_free = (h + 1) / 2;             // codewords below this index contain header bits
+                // copy block 0 into block k (codewords that do not touch the header)
+                for i in 0..blen {
+                    let x = cw(&nib, i);                  // block k is free of header bits, so it can mirror block 0 completely
+                    let c = k * blen + i;
+                    nib[2 * c] = (x >> 4) as u8; nib[2 * c + 1] = (x & 15) as u8;
+                }
+                // the compensating difference at a position where it does not wrap
+                let mut done = false;
+                for _try in 0..200 {
+                    let p = r.gen_range(first_free..blen - 1);
+                    let (a, b) = (cw(&nib, p), cw(&nib, p + 1));
+                    let (na, nb2) = match m {
+                        0 => (b, a),                                            // swap two adjacent codewords
+                        1000 => (a ^ 0x10, b ^ 0x10),                           // same bit flipped in both (xor preserved)
+                        2000 => { let q = r.gen_range(first_free..blen); if q == p { continue; } let x = cw(&nib, q); let c2 = k * blen + q; let c1 = k * blen + p;
+                                  nib[2 * c2] = (a >> 4) as u8; nib[2 * c2 + 1] = (a & 15) as u8; nib[2 * c1] = (x >> 4) as u8; nib[2 * c1 + 1] = (x & 15) as u8; done = a != x; if done { break } else { continue } }
+                        _ => (a + 1, b - m),
+                    };
+                    if na < 0 || na > 255 || nb2 < 0 || nb2 > 255 || (na, nb2) == (a, b) { continue; }
+                    let c = k * blen + p;
+                    nib[2 * c] = (na >> 4) as u8; nib[2 * c + 1] = (na & 15) as u8;
+                    nib[2 * c + 2] = (nb2 >> 4) as u8; nib[2 * c + 3] = (nb2 & 15) as u8;
+                    done = true;
+                    break;
+                }
+                if !done { continue; }
+                let bytes: Vec<u8> = (0..n).map(|j| (nib[h + 2 * j] << 4) | nib[h + 2 * j + 1]).collect();
+                out.push(spec(bytes, Some(e), Some(2), Some(v), Some((v + rep) % 8), format!("nearblock:{v}:{e}:{m}")));
+            }
+        }
+    }
+    out
+}
